@@ -141,7 +141,7 @@ Contract(
     ensures=_mcs_post,
     raises={"TimeoutError": lambda c: z3.BoolVal(True)},
     trusted=True,
-    note="ASSUMED (MCS, see module docstring); compared with brute force for every construction the operators use by module c15",
+    note="interface contract MCS: DERIVED for the only implementation, OptimizerRC2.minimal_correction_subsets (contracts/c_mcs.py: proved structural contract + lemmas MCS.bridge, MCS.bridge2), relative to the assumed RC2 / GVC / BLOCK contracts one level further down; also compared with brute force by modules pure / c15",
 )
 Contract(
     "inference.system_w:any_subset_of_all",
